@@ -778,6 +778,44 @@ def rule_lfda(repo, rep):
               ok = True
           rep.add(R, 'LFDA.fit:weighted', 'derived' if ok else 'refuted',
                   site(f, node), '' if ok else 'weighted embedding: ' + body)
+          # the eigenvalues that scale the vectors are re-ordered with them
+          top = n
+          if ok and top in f.node.body:
+            def strip(e):
+              while True:
+                if isinstance(e, ast.Attribute) and e.attr == 'real':
+                  e = e.value
+                elif isinstance(e, ast.Call) and ast.unparse(e.func) in (
+                        'np.real', 'np.sqrt', 'np.abs') and len(e.args) == 1:
+                  e = e.args[0]
+                else:
+                  return e
+            uv = [strip(astutil.unfold(ast.parse(v, mode='eval').body,
+                                       f.node.body, top)) for v in valn]
+            uw = [astutil.unfold(ast.parse(v, mode='eval').body,
+                                 f.node.body, top) for v in vecn]
+            selv = [ast.unparse(x.slice) for x in uv
+                    if isinstance(x, ast.Subscript)]
+            selw = [ast.unparse(x.slice.elts[1]) for x in uw
+                    if isinstance(x, ast.Subscript) and
+                    isinstance(x.slice, ast.Tuple) and
+                    len(x.slice.elts) == 2]
+            if selw and selv and set(selv) == set(selw):
+              rep.derived(R, 'LFDA.fit:weighted-values-follow-vectors',
+                          site(f, node))
+            elif selw and not selv:
+              rep.refuted(R, 'LFDA.fit:weighted-values-follow-vectors',
+                          site(f, node), 'the eigenvectors are re-ordered '
+                          'by %s but the eigenvalues scaling them are %s'
+                          % (selw[0], ', '.join(ast.unparse(x) for x in uv)))
+            elif selw and selv:
+              rep.refuted(R, 'LFDA.fit:weighted-values-follow-vectors',
+                          site(f, node), 'eigenvectors selected by %s, '
+                          'eigenvalues by %s' % (selw[0], selv[0]))
+            else:
+              rep.unknown(R, 'LFDA.fit:weighted-values-follow-vectors',
+                          site(f, node), 're-ordering of the eigenvectors '
+                          'not recognised')
         if lit == 'orthonormalized':
           ok = 'qr(' in body
           rep.add(R, 'LFDA.fit:orthonormalized', 'derived' if ok else
